@@ -11,6 +11,18 @@ import abc
 from typing import Any, Dict, Iterator, List, Set
 
 
+def _remove_parent(child: "MerkleNode", parent: "MerkleNode") -> None:
+    """Remove one occurrence of ``parent`` from ``child.parents``, by identity.
+
+    ``list.remove`` compares with ``==``, which for Merkle nodes is structural: with
+    two equal-looking parents it could drop the back-link of the wrong one."""
+    for i, candidate in enumerate(child.parents):
+        if candidate is parent:
+            del child.parents[i]
+            return
+    raise ValueError("node is not a registered parent of this child")
+
+
 class MerkleNode(dict, metaclass=abc.ABCMeta):
     """Representation of a node in a Merkle Tree.
 
@@ -129,7 +141,7 @@ class MerkleNode(dict, metaclass=abc.ABCMeta):
         """Remove a child, invalidating the current hash"""
         if name in self:
             self.invalidate_hash()
-            self[name].parents.remove(self)
+            _remove_parent(self[name], self)
             super().__delitem__(name)
         else:
             raise KeyError(name)
@@ -144,7 +156,7 @@ class MerkleNode(dict, metaclass=abc.ABCMeta):
         for name, new_child in new_children.items():
             new_child.parents.append(self)
             if name in self:
-                self[name].parents.remove(self)
+                _remove_parent(self[name], self)
 
         super().update(new_children)
 
